@@ -3757,6 +3757,11 @@ impl<'source> Parser<'source> {
                             chars.next();
                             code *= 16;
                             code += c.to_digit(16).unwrap();
+                            // Stop accumulating digits once the code is out of range,
+                            // otherwise a long enough sequence of digits would overflow.
+                            if code > char::MAX as u32 {
+                                return self.error(UnicodeEscapeCodeOutOfRange);
+                            }
                         } else {
                             break;
                         }
